@@ -25,10 +25,11 @@ Tagged(g) ==
     [rewards |-> PList([i \in 1..g.n |-> PInt(g.reward[i])]),
      players |-> PList([i \in 1..g.n |-> PStr(OwnerName(g.owner[i]))]),
      transition_list |-> PList([s \in 1..g.n |->
+         LET W == TotalW(g, s) IN          \* (once per state: rows may have a thousand entries)
          PList([k \in DOMAIN g.tr[s] |->
             \* probability 1 is written as the int 1, the way the repository's inputs do: (1, 6)
             PTuple(<<IF g.owner[s] = PR
-                     THEN (IF g.tr[s][k].w = TotalW(g, s) THEN PInt(1) ELSE PFloat(g.tr[s][k].w, TotalW(g, s)))
+                     THEN (IF g.tr[s][k].w = W THEN PInt(1) ELSE PFloat(g.tr[s][k].w, W))
                      ELSE PStr(g.tr[s][k].a),
                      PInt(g.tr[s][k].t - 1)>>)])]),
      final_states |-> PList([i \in DOMAIN g.final |-> PInt(g.final[i] - 1)])]
